@@ -91,3 +91,19 @@ Definition r_timeadd (t m ns : Z) : list Z := c_res (time_add t (mktd m ns)).
 Definition r_timesub (t m ns : Z) : list Z := c_res (time_sub t (mktd m ns)).
 Definition r_trunc (u : tunit) (x m ns : Z) : list Z := c_res (dt_trunc u x (mktd m ns)).
 Definition r_tdfrom (v : Z) : list Z := c_td (td_from_i64 v).
+
+(* ---- audit (YC): Default, From<Duration / Option<Duration>>, TimeDelta::nat(), From<NaiveDate> at every unit --------- *)
+(* DateTime::default(), TimeDelta::default(), Time::default(), TimeDelta::from(None::<Duration>), TimeDelta::nat() *)
+Definition r16_defaults : list Z :=
+  c_int dt_default ++ c_td td_default ++ c_int time_default ++ c_td (td_from_opt_dur None) ++ c_td td_nat
+  ++ c_bool (td_is_nat td_default) ++ c_bool (is_nat time_default).
+(* TimeDelta::from(Duration), TimeDelta::from(Some(Duration)), is_nat of the result *)
+Definition r16_tddur (ns : Z) : list Z :=
+  c_td (td_from_dur ns) ++ c_td (td_from_opt_dur (Some ns)) ++ c_bool (td_is_nat (td_from_dur ns)).
+(* DateTime<U>::from(NaiveDate of that day number): value, then year month day hour minute second of it *)
+Definition r16_naivedate (u : tunit) (day : Z) : list Z :=
+  match from_naive_date u day with
+  | Panic k => c_panic k
+  | Ok x => c_int x ++ c_optz (dt_field cr_year u x) ++ c_optz (dt_field cr_month u x) ++ c_optz (dt_field cr_dom u x)
+            ++ c_optz (dt_field cr_hour u x) ++ c_optz (dt_field cr_minute u x) ++ c_optz (dt_field cr_second u x)
+  end.
